@@ -1,7 +1,7 @@
 (* C03 — Every message frames and parses back identically, lengths agree. *)
 From Coq Require Import NArith ZArith List Bool Lia.
 From PV Require Import base.Res base.Utf8 crc.Crc stream.Stream stream.StreamProofs stream.Wire
-  at4.Msg4 at4.Codec4 at4.Codec4Proofs at5.Msg5 at5.Codec5 at5.Codec5Proofs stream.WireProofs.
+  at4.Msg4 at4.Codec4 at4.Codec4Proofs at5.Msg5 at5.Codec5 at5.Codec5Proofs stream.WireProofs base.Flt base.FltProofs at5.FltLink.
 Import ListNotations.
 Open Scope N_scope.
 
@@ -53,6 +53,48 @@ Theorem C03_header_length_5 : forall m pid h f, send5 m pid = Some (h, f) ->
   exists p, enc5 m = Some p /\ size5 m = Some (N.to_nat (h_len h)) /\ f = frame AT5 h p.
 Proof. exact send5_length. Qed.
 Print Assumptions C03_header_length_5.
+
+(* floating point.  Temperatures are tenths (Z) in Codec4 / Codec5; the library computes them with
+   binary64 arithmetic ((raw - 500) / 10.0, int(t * 10.0 + 500), ...).  base/Flt.v states those lines on
+   Coq.Floats.SpecFloat (IEEE-754 binary64, round to nearest even, pure Gallina): every value the fields can
+   carry survives decode-then-encode in floating point, ... *)
+Theorem C03_float_temperature_4 : forall v, (0 <= v < 2048)%Z ->
+  f_enc_temp4 (f_dec_temp4 (Z.shiftl v 5)) = Some (Z.shiftl v 5).
+Proof. exact temp4_float_roundtrip. Qed.
+Print Assumptions C03_float_temperature_4.
+
+Theorem C03_float_set_point_5 : forall r, (0 <= r < 256)%Z -> f_enc_sp5 (f_dec_sp5 r) = Some r.
+Proof. exact sp5_float_roundtrip. Qed.
+Print Assumptions C03_float_set_point_5.
+
+Theorem C03_float_temperature_5 : forall r, (0 <= r < 2048)%Z -> f_enc_temp5 (f_dec_temp5 r) = Some r.
+Proof. exact temp5_float_roundtrip. Qed.
+Print Assumptions C03_float_temperature_5.
+
+(* ... and the integer arithmetic of the codec model is exactly what the floating-point code computes:
+   a decoder returns the binary64 nearest to (model tenths)/10, and on the binary64 nearest to k/10 an
+   encoder yields the model's integer *)
+Theorem C03_float_decoders : forall raw,
+  ((raw < 65536)%N -> f_dec_temp4 (Z.of_N raw) = f_tenths (dec_temp raw)) /\
+  (f_dec_sp5 (Z.of_N raw) = f_tenths (dec_set_point raw)) /\
+  (f_dec_temp5 (Z.of_N raw) = f_tenths (dec_temp5 raw)).
+Proof. intros raw. split; [exact (dec_temp4_float raw)|]. split; [exact (dec_set_point5_float raw)|exact (dec_temp5_float raw)]. Qed.
+Print Assumptions C03_float_decoders.
+
+Theorem C03_float_encoder_temperature_4 : forall k, (-500 <= k < 1548)%Z ->
+  exists b, f_enc_temp4 (f_tenths k) = Some b /\ (0 <= b)%Z /\ enc_temp k = Some (Z.to_N b).
+Proof. exact enc_temp4_float. Qed.
+Print Assumptions C03_float_encoder_temperature_4.
+
+Theorem C03_float_encoder_set_point_5 : forall k, (100 <= k < 356)%Z ->
+  exists b, f_enc_sp5 (f_tenths k) = Some b /\ (0 <= b)%Z /\ enc_set_point k = Some (Z.to_N b).
+Proof. exact enc_set_point5_float. Qed.
+Print Assumptions C03_float_encoder_set_point_5.
+
+Theorem C03_float_encoder_temperature_5 : forall k, (-1500 <= k < 1548)%Z ->
+  exists b, f_enc_temp5 (f_tenths k) = Some b /\ Z.of_N (enc_temp11 k) = Z.land b 2047.
+Proof. exact enc_temp5_float. Qed.
+Print Assumptions C03_float_encoder_temperature_5.
 
 (* non-vacuity: multi-record messages with multi-byte UTF-8 names are in the domain *)
 Example C03_witness_4 :
